@@ -51,6 +51,52 @@ def _writes_to(names, loop):
     return out
 
 
+def _exact_bound(res, v, f, acc, guards, bound_names, role_of):
+    """The explicit size guard in front of the accumulation, as a truth table over (|source|, |target|, bound): the cell is
+    reached exactly when |source| + |target| <= bound (the hyperedges of total size up to the bound)."""
+    import copy
+
+    from .. import predtab
+
+    aid = v.cfg_id(acc)
+
+    class Sub(ast.NodeTransformer):
+        def visit_Call(self, n):
+            if isinstance(n.func, ast.Name) and n.func.id == "len" and n.args:
+                r = role_of(n)
+                if r in ("SRC", "TGT"):
+                    return ast.Name(id="s" if r == "SRC" else "t", ctx=ast.Load())
+            return self.generic_visit(n)
+
+        def visit_Name(self, n):
+            return ast.Name(id="B", ctx=ast.Load()) if n.id in bound_names else n
+
+    conds = []
+    for i in guards:
+        tid = v.cfg.by_ast.get(id(i.test))
+        for lab in ("T", "F"):
+            if tid is not None and v.cfg.branch_dominated(tid, lab, aid):
+                t = Sub().visit(v.inline(i.test))
+                conds.append(t if lab == "T" else ast.UnaryOp(op=ast.Not(), operand=t))
+    if not conds:
+        return
+    test = conds[0] if len(conds) == 1 else ast.BoolOp(op=ast.And(), values=conds)
+    tab = predtab.table(test, ["s", "t", "B"], lo=1, hi=7)
+    if tab is None:
+        res.unknown("B-BOUND", f, norm(guards[0].test), "total-size<=bound", "the size guard is not a plain comparison of the two side sizes with the bound", loc(v.fi, guards[0]))
+        return
+    over = [k for k, val in tab.items() if k[2] >= 2 and val and k[0] + k[1] > k[2]]
+    under = [k for k, val in tab.items() if k[2] >= 2 and not val and k[0] + k[1] <= k[2]]
+    if over:
+        s_, t_, b_ = over[0]
+        res.violation("B-BOUND", f, norm(guards[0].test), "total-size<=bound", f"the guard lets a hyperedge with |source|={s_}, |target|={t_} (total size {s_ + t_}) through for bound {b_}: hyperedges larger than the bound are counted", loc(v.fi, guards[0]))
+    elif under:
+        s_, t_, b_ = under[0]
+        res.violation("B-BOUND", f, norm(guards[0].test), "total-size<=bound", f"the guard drops a hyperedge with |source|={s_}, |target|={t_} (total size {s_ + t_}) for bound {b_}: hyperedges within the bound are not counted", loc(v.fi, guards[0]))
+    else:
+        res.ok("B-BOUND", f, norm(guards[0].test), "total-size<=bound", loc(v.fi, guards[0]))
+
+
 def run(ctx):
     res = Result("C12")
     res.rules.update({k: KIND_RULES[k] for k in ("C-SIG", "K-ARG", "K-KEY-LOCAL")})
@@ -178,6 +224,8 @@ def run(ctx):
                     aid = v.cfg_id(a)
                     dom = any(v.cfg.branch_dominated(v.cfg.by_ast[id(i.test)], lab, aid) for i in ifs_with_bound for lab in ("T", "F"))
                     st = "ok" if dom else "violation"
+                    if dom:
+                        _exact_bound(res, v, f, a, ifs_with_bound, bound_names, role_of)
                 elif not it.args and (not kw or set(kw) <= {"size", "order", "up_to"}):
                     st = "violation"
         res.add("B-BOUND", f, norm(lp.iter) if lp is not None else "for hyperedge in ...", "bounded-listing", st, why if st != "ok" else "", loc(v.fi, lp if lp is not None else v.fi.node))
@@ -249,6 +297,20 @@ def run(ctx):
                     den = norm(dv.right)
                     did = v.cfg_id(dv)
                     ok = False
+                    # conditional expression: `rec / tot if tot != 0 else 0`
+                    par_ = v.parent.get(id(dv))
+                    while par_ is not None and not isinstance(par_, (ast.IfExp, ast.stmt)):
+                        par_ = v.parent.get(id(par_))
+                    if isinstance(par_, ast.IfExp):
+                        t_ = par_.test
+                        in_body = any(dv is x for x in ast.walk(par_.body))
+                        if isinstance(t_, ast.Compare) and len(t_.ops) == 1 and den in (norm(t_.left), norm(t_.comparators[0])):
+                            other_ = t_.comparators[0] if norm(t_.left) == den else t_.left
+                            if isinstance(other_, ast.Constant) and other_.value == 0:
+                                nz = isinstance(t_.ops[0], (ast.NotEq, ast.Gt)) or (isinstance(t_.ops[0], ast.Lt) and norm(t_.left) != den)
+                                ok = (nz and in_body) or (isinstance(t_.ops[0], ast.Eq) and not in_body)
+                        elif norm(t_) == den and in_body:
+                            ok = True
                     for i in [n for n in walk_no_nested(fi.node) if isinstance(n, ast.If)]:
                         for atom, _ in _atoms(i.test, True):
                             if isinstance(atom, ast.Compare) and len(atom.ops) == 1 and den in (norm(atom.left), norm(atom.comparators[0])):
